@@ -3,7 +3,17 @@ package main
 // Rng is splitmix64: every random choice of the harness derives from one state.
 type Rng struct{ s uint64 }
 
-func NewRng(seed uint64) *Rng { return &Rng{s: seed*0x9E3779B97F4A7C15 + 0x1234567} }
+func NewRng(seed uint64) *Rng {
+	// scramble the seed so that neighbouring seeds give unrelated streams (a linear seed map makes the
+	// stream of seed s+1 the stream of seed s shifted by one)
+	z := seed + 0x632BE59BD9B4E019
+	z = (z ^ (z >> 30)) * 0xBF58476D1CE4E5B9
+	z = (z ^ (z >> 27)) * 0x94D049BB133111EB
+	z ^= z >> 31
+	z = (z ^ (z >> 33)) * 0xFF51AFD7ED558CCD
+	z ^= z >> 33
+	return &Rng{s: z}
+}
 
 func (r *Rng) U64() uint64 {
 	r.s += 0x9E3779B97F4A7C15
@@ -37,4 +47,4 @@ func Shuffle[T any](r *Rng, xs []T) {
 }
 
 // Fork derives an independent generator (so that adding choices in one part does not shift others).
-func (r *Rng) Fork() *Rng { return &Rng{s: r.U64()} }
+func (r *Rng) Fork() *Rng { return NewRng(r.U64()) }
